@@ -5,3 +5,5 @@ pub mod gen_chars;
 
 #[cfg(kani)]
 mod c18;
+#[cfg(kani)]
+mod c09;
